@@ -16,6 +16,7 @@ import numpy as np
 from . import common as C
 from . import geomgen as G
 from . import c05_util as U
+from . import c05_float as F
 
 ANCHOR_FILES = ['spatialpandas/tools/sjoin.py', 'spatialpandas/geometry/point.py',
                 'spatialpandas/spatialindex/rtree.py']
@@ -272,14 +273,16 @@ def make_specs(meta, left_elems, lsub, kind, right_elems, rsub):
 class Frames:
     """the real frames of a (lspec, rspec) pair and what is derived from them once"""
 
-    def __init__(self, lspec, rspec, boxes_oracle=False):
+    def __init__(self, lspec, rspec, boxes_oracle=False, export=True):
+        # export=False: coordinates the integer model cannot take (harness/c05_float.py); such
+        # frames are never compared with Model/Sjoin.v (run_call(model=False))
         self.lspec, self.rspec = lspec, rspec
         self.ldf, self.lorder = U.build_frame(lspec, 'L')
         self.rdf, self.rorder = U.build_frame(rspec, 'R')
         self.larr = self.ldf[lspec['geom']].array
         self.rarr = self.rdf[rspec['geom']].array
-        self.lrec = C.export_fixarr(self.larr)
-        self.rshapes = U.export_right(self.rarr, rspec['kind'])
+        self.lrec = C.export_fixarr(self.larr) if export else None
+        self.rshapes = U.export_right(self.rarr, rspec['kind']) if export else None
         self.lmeta = U.fmeta_term(lspec, self.lorder)
         self.rmeta = U.fmeta_term(rspec, self.rorder)
         self.closed = U.rings_closed(rspec['kind'], rspec['elems'])
@@ -337,7 +340,10 @@ def gen_index_names(spec, suffix):
 
 
 def run_call(rep, fr, how, ls, rs, batch, meta_desc, model=True):
-    """run the real sjoin once; direct checks; queue the model comparison"""
+    """run the real sjoin once; direct checks; queue the model comparison.
+    Returns the joined rows [(left position | None, right position | None)], sorted, when sjoin
+    returned a frame that was judged; None otherwise"""
+    assert fr.lrec is not None or not model
     from spatialpandas import GeoDataFrame, sjoin
     lspec, rspec = fr.lspec, fr.rspec
     replay = {'left': lspec, 'right': rspec, 'how': how, 'lsuffix': ls, 'rsuffix': rs}
@@ -428,8 +434,10 @@ def run_call(rep, fr, how, ls, rs, batch, meta_desc, model=True):
         rep.count('has_unmatched_rows')
     if not model:
         rep.count('bruteforce_only(large)')
-        rep.nontrivial((how, ls, rs, 'large', len(fr.larr), repr(fr.rshapes), repr(meta_desc)))
-        return
+        rep.nontrivial((how, ls, rs, 'large', len(fr.larr),
+                        repr(fr.rshapes) if fr.rshapes is not None else repr((lspec['elems'], rspec['elems'])),
+                        repr(meta_desc)))
+        return sorted(rows, key=U.orow_key)
     # --- model comparison (queued)
     res = Some(Raw('(inr ' + C.coq((U.rows_term(rows), [str(c) for c in out.columns],
                                     [None if n is None else Some(str(n)) for n in out.index.names],
@@ -440,6 +448,7 @@ def run_call(rep, fr, how, ls, rs, batch, meta_desc, model=True):
     if len(lspec['elems']) <= 40:
         rep.sample({'how': how, 'left': lspec['elems'], 'right_kind': rspec['kind'], 'right': rspec['elems'],
                     'rows': rows, 'columns': list(out.columns), 'index_names': list(out.index.names)}, cap=4)
+    return sorted(rows, key=U.orow_key)
 
 
 def case_term(fr, how, ls, rs):
@@ -668,7 +677,14 @@ def run(rep):
                 'choices, generated-name clashes, equal suffixes, MergeError); left frames longer than the '
                 'default index page size 512 (600 missing + 300 valid, 1500 valid + 700 missing, 1100 valid, '
                 '513 missing + 1 valid; 1140 scattered points each queried by its own square) against the '
-                'brute-force pair set; a case is non-trivial when '
+                'brute-force pair set; coordinates that are not small integers: near-ties (cross product '
+                '+-1) on primitive segments / triangle edges of magnitude 2^8..2^25 (float64, int64, int32) '
+                'against the model, every catalogue frame and a random stream under the exact maps '
+                'v -> v*2^k + t (k = -200..200, dyadic t up to 2^50: tiny extents, tiny extents at large '
+                'offsets, huge extents) against its own base run, and arbitrary float64 frames (decimal '
+                'degrees in 1e-6 steps, 0.1-grids, 1e-7-sized, 2^-20 steps around integers, random doubles; '
+                'points interpolated on segments +-2 ulps, inside a segment box off the segment) against '
+                'the binary64 pair-table model Model/SjoinFloat.v bit for bit; a case is non-trivial when '
                 'sjoin returned a frame or a modelled error; distinct = distinct (how, suffixes, exported '
                 'buffers, metadata)')
     validation_checks(rep)
@@ -703,11 +719,24 @@ def run(rep):
             run_call(rep, fr, how, ls, rs, batch, meta, model=with_model)
     flush(rep, batch)
     check_guards(rep, frames)
+    # coordinates that are not small integers (harness/c05_float.py): (Z) near-ties at magnitude
+    # 2^8..2^25 against the model; (S) the same frames under exact maps v -> v*2^k + t against
+    # their base run; (F) arbitrary float64 frames against the binary64 pair-table model
+    F.run_near_ties(rep, batch, frames, tier)
+    F.run_scaled(rep, batch, frames, tier)
+    flush(rep, batch)
+    check_guards(rep, frames)
+    F.run_float(rep, tier)
+    F.probe_degenerate_extent(rep)
 
 
 def replay(rep, rp):
     import numba
     numba.set_num_threads(1)
+    if rp.get('xform'):
+        return F.replay_scaled(rep, rp)
+    if rp.get('float_model'):
+        return F.replay_float(rep, rp)
     if rp.get('validation'):
         validation_checks(rep)
         return not rep.violations
@@ -717,7 +746,12 @@ def replay(rep, rp):
         for v in rep.violations:
             print(v['what'], v['replay'].get('expected'), v['replay'].get('model'))
         return not rep.violations
-    fr = Frames(rp['left'], rp['right'])
+    try:
+        fr = Frames(rp['left'], rp['right'])
+    except ValueError:
+        if rp.get('model', True):
+            raise
+        fr = Frames(rp['left'], rp['right'], export=False)      # non-integral coordinates
     batch = []
     run_call(rep, fr, rp['how'], rp['lsuffix'], rp['rsuffix'], batch, None, model=rp.get('model', True))
     for v in rep.violations:
